@@ -13,8 +13,12 @@
    passphrases (successful signs, failed signs, exports, reveals, checks, clears, in any order).
    The primitives (scrypt, SHA-256/512, secretbox, key derivation, ECDSA, the signature hash, the
    script engine) are the variables of the Section; what is assumed of them is [unlock_laws] and
-   [sign_laws]. The switches [zfix] / [pfix] select the repaired code (true: /repo commits
-   34102a8, 6d649d4) or the code as first found (false). *)
+   [sign_laws]. The switches [zfix] / [pfix] / [sfix] select the repaired code (true: /repo
+   commits 34102a8, 6d649d4, and the fresh salted buffer in checkPassword) or the code as first
+   found (false); [nfix] likewise for the refusal of candidates ending with a zero byte (commit
+   30c1bd3). The theorems of this file are about [sfix] = [nfix] = true (hypotheses [Sfix],
+   [Nfix]); the behaviours for false are refuted in Properties/C05.v (C05_salt_unfixed_refuted,
+   C05_nul_unfixed_refuted). *)
 From Coq Require Import List ZArith Bool.
 Import ListNotations.
 Require Import MW.Codec.Bip32 MW.Keys.Unlock MW.Keys.UnlockProofs MW.Keys.Sign MW.Keys.SignProofs MW.Keys.Toy MW.Keys.SignWitness.
@@ -30,12 +34,16 @@ Section C03.
   Variable derive_sk : bytes -> Z -> Z -> option sk.
   Variable sign : sk -> bytes -> bytes.
   Variable zfix : bool.
+  Variable sfix : bool.
+  Variable nfix : bool.
   Variable cfg : amcfg.
   Variable right : bytes.
   Variable acct : bytes.
   Variable ent : bytes.
   Variable sk_of : addr -> sk.
   Hypothesis ulaws : unlock_laws kdf digest shash open_box sk branch_ok derive_sk cfg right acct ent sk_of.
+  Hypothesis Sfix : sfix = true.
+  Hypothesis Nfix : nfix = true.
   Variable pk : Type.
   Variable verify : pk -> bytes -> bytes -> bool.
   Variable pub_of : sk -> pk.
@@ -51,10 +59,10 @@ Section C03.
   Variable engine : uinfo -> tx -> nat -> bool -> bool.
   Hypothesis laws : sign_laws sk sign cfg sk_of pk verify pub_of sighash sha256 redeem pk_of_redeem pub_at env engine.
 
-  Local Notation reachable := (reachable kdf digest shash open_box sk bytes branch_ok derive_sk sign zfix cfg).
-  Local Notation step := (step kdf digest shash open_box sk bytes branch_ok derive_sk sign zfix cfg).
+  Local Notation reachable := (reachable kdf digest shash open_box sk bytes branch_ok derive_sk sign zfix sfix nfix cfg).
+  Local Notation step := (step kdf digest shash open_box sk bytes branch_ok derive_sk sign zfix sfix nfix cfg).
   Local Notation sign_raw :=
-    (sign_raw kdf digest shash open_box sk branch_ok derive_sk sign zfix cfg pk sighash redeem pub_at warmup env pfix pending_height engine).
+    (sign_raw kdf digest shash open_box sk branch_ok derive_sk sign zfix sfix nfix cfg pk sighash redeem pub_at warmup env pfix pending_height engine).
   Local Notation owned := (owned warmup env pfix pending_height).
 
   (* Right passphrase, any of the six flags, inputs = unspent outputs of the selected wallet
@@ -65,12 +73,12 @@ Section C03.
      (known finding sighash-single-input-without-output, refuted below without the guard). *)
   Theorem C03_sign_ok : forall st fs f t,
     reachable st -> parse_flag fs = Some f -> owned t -> single_guard f t ->
-    exists t', sign_raw st right fs t = (SOk, init_state, t', Some t') /\
+    exists t', sign_raw st right fs t = (SOk, (init_state cfg), t', Some t') /\
       strip_witness t' = strip_witness t /\
       all_inputs_verify warmup env pfix pending_height engine t'.
   Proof.
-    exact (sign_ok kdf digest shash open_box sk branch_ok derive_sk sign zfix cfg right acct ent sk_of ulaws
-                   pk verify pub_of sighash sha256 redeem pk_of_redeem pub_at warmup env pfix pending_height engine laws).
+    exact (sign_ok kdf digest shash open_box sk branch_ok derive_sk sign zfix sfix nfix cfg right acct ent sk_of ulaws
+                   pk verify pub_of sighash sha256 redeem pk_of_redeem pub_at warmup env pfix pending_height engine laws Sfix Nfix).
   Qed.
 
   (* the six flag strings, and only they *)
@@ -84,7 +92,7 @@ Section C03.
   Theorem C03_strip_witness_invariant : forall st p fs t r st' t' ret,
     sign_raw st p fs t = (r, st', t', ret) -> strip_witness t' = strip_witness t.
   Proof.
-    exact (sign_raw_strip kdf digest shash open_box sk branch_ok derive_sk sign zfix cfg
+    exact (sign_raw_strip kdf digest shash open_box sk branch_ok derive_sk sign zfix sfix nfix cfg
                           pk sighash redeem pub_at warmup env pfix pending_height engine).
   Qed.
 
@@ -95,7 +103,7 @@ Section C03.
     reachable st -> known cfg a = true -> length h = 32%nat -> p <> right ->
     exists st', step st (OSign p a h) = (OutErr EInvalidPassphrase, st', []) /\ same_but_mk sk st st'.
   Proof.
-    exact (sign_wrong_reachable kdf digest shash open_box sk bytes branch_ok derive_sk sign zfix cfg right acct ent sk_of ulaws).
+    exact (sign_wrong_reachable kdf digest shash open_box sk bytes branch_ok derive_sk sign zfix sfix nfix cfg right acct ent sk_of ulaws Sfix Nfix).
   Qed.
 
   (* SignRawTx with any other passphrase, in any reachable state: the transaction object is
@@ -105,8 +113,8 @@ Section C03.
     reachable st -> p <> right -> unsigned t -> t_ins t <> [] ->
     exists r st', sign_raw st p fs t = (r, st', t, None) /\ r <> SOk.
   Proof.
-    exact (sign_wrong_pass_fails kdf digest shash open_box sk branch_ok derive_sk sign zfix cfg right acct ent sk_of ulaws
-                                 pk verify pub_of sighash sha256 redeem pk_of_redeem pub_at warmup env pfix pending_height engine laws).
+    exact (sign_wrong_pass_fails kdf digest shash open_box sk branch_ok derive_sk sign zfix sfix nfix cfg right acct ent sk_of ulaws
+                                 pk verify pub_of sighash sha256 redeem pk_of_redeem pub_at warmup env pfix pending_height engine laws Sfix Nfix).
   Qed.
 
   (* ... and the error is the passphrase error whenever the first input is one the wallet would
@@ -117,8 +125,8 @@ Section C03.
     (is_single f = true -> (0 < length (t_outs t))%nat) ->
     exists st', sign_raw st p fs t = (SErr (SKeystore EInvalidPassphrase), st', t, None).
   Proof.
-    exact (sign_wrong_pass_error kdf digest shash open_box sk branch_ok derive_sk sign zfix cfg right acct ent sk_of ulaws
-                                 pk verify pub_of sighash sha256 redeem pk_of_redeem pub_at warmup env pfix pending_height engine laws).
+    exact (sign_wrong_pass_error kdf digest shash open_box sk branch_ok derive_sk sign zfix sfix nfix cfg right acct ent sk_of ulaws
+                                 pk verify pub_of sighash sha256 redeem pk_of_redeem pub_at warmup env pfix pending_height engine laws Sfix Nfix).
   Qed.
 
   (* no signature material is returned unless the whole call succeeded; with a wrong passphrase
@@ -128,7 +136,7 @@ Section C03.
   Theorem C03_no_material_on_error : forall st p fs t r st' t' ret,
     sign_raw st p fs t = (r, st', t', ret) -> (r = SOk -> ret = Some t') /\ (r <> SOk -> ret = None).
   Proof.
-    exact (sign_raw_returns kdf digest shash open_box sk branch_ok derive_sk sign zfix cfg
+    exact (sign_raw_returns kdf digest shash open_box sk branch_ok derive_sk sign zfix sfix nfix cfg
                             pk sighash redeem pub_at warmup env pfix pending_height engine).
   Qed.
 
@@ -139,10 +147,10 @@ Section C03.
     pfix = false -> reachable st -> parse_flag fs = Some f -> nth_error (t_ins t) 0 = Some inp ->
     env (in_prev inp) = LOut u -> u_spent u = false -> u_addr u = Some a -> u_height u = None ->
     (is_single f = true -> (0 < length (t_outs t))%nat) ->
-    exists t', sign_raw st right fs t = (SPanic, init_state, t', None).
+    exists t', sign_raw st right fs t = (SPanic, (init_state cfg), t', None).
   Proof.
-    exact (sign_pending_panics kdf digest shash open_box sk branch_ok derive_sk sign zfix cfg right acct ent sk_of ulaws
-                               pk verify pub_of sighash sha256 redeem pk_of_redeem pub_at warmup env pfix pending_height engine laws).
+    exact (sign_pending_panics kdf digest shash open_box sk branch_ok derive_sk sign zfix sfix nfix cfg right acct ent sk_of ulaws
+                               pk verify pub_of sighash sha256 redeem pk_of_redeem pub_at warmup env pfix pending_height engine laws Sfix Nfix).
   Qed.
 End C03.
 
@@ -153,7 +161,7 @@ End C03.
    witness of input 0. *)
 Theorem C03_single_unguarded_refuted :
   owned 1000 ex_env true 10 ex_tx /\ parse_flag s_single = Some FSingle /\
-  exists t', ex_sign_raw init_state ex_right s_single ex_tx = (SErr SEngine, init_state, t', None) /\
+  exists t', ex_sign_raw (init_state ex_cfg) ex_right s_single ex_tx = (SErr SEngine, (init_state ex_cfg), t', None) /\
              wit_shape t' = [2%nat; 0%nat].
 Proof. exact single_unguarded_refuted_witness. Qed.
 
@@ -178,6 +186,6 @@ Proof. exact ex_laws. Qed.
 (* ... and on a concrete two-input transaction with flag "ALL|ANYONECANPAY" the model signs both
    inputs, after which both pass the engine template *)
 Example C03_ex_sign :
-  exists t', ex_sign_raw init_state ex_right (s_all ++ s_any) ex_tx = (SOk, init_state, t', Some t') /\
+  exists t', ex_sign_raw (init_state ex_cfg) ex_right (s_all ++ s_any) ex_tx = (SOk, (init_state ex_cfg), t', Some t') /\
              wit_shape t' = [2%nat; 2%nat] /\ strip_witness t' = strip_witness ex_tx.
 Proof. eexists. vm_compute. repeat split; reflexivity. Qed.
